@@ -135,8 +135,16 @@ func (ml *TruncatingMethodLogger) truncateMetadata(mdPb *binlogpb.Metadata) (tru
 		}
 		bytesLimit -= currentEntryLen
 	}
-	truncated = index < len(mdPb.Entry)
-	mdPb.Entry = mdPb.Entry[:index]
+	// Keep "grpc-trace-bin" entries that come after the first entry that did
+	// not fit: they are always logged and never counted.
+	kept := mdPb.Entry[:index]
+	for _, entry := range mdPb.Entry[index:] {
+		if entry.Key == "grpc-trace-bin" {
+			kept = append(kept, entry)
+		}
+	}
+	truncated = len(kept) < len(mdPb.Entry)
+	mdPb.Entry = kept
 	return truncated
 }
 
